@@ -98,6 +98,46 @@ def detect_renames(j):
             back = [x for x in vs if ref["fns"][x].get("sig") == sig]
             if len(cands) == 1 and len(back) == 1:
                 fn_ren[cands[0]] = v
+    # several functions of one scope renamed at once, with one signature: pair them by what they call (as closures are)
+    for sc, vs in vanished.items():
+        ns = [n for n in fresh.get(sc, []) if n not in fn_ren]
+        vs2 = [v for v in vs if v not in fn_ren.values()]
+        by_sig = defaultdict(lambda: ([], []))
+        for v in vs2:
+            by_sig[ref["fns"][v].get("sig")][0].append(v)
+        for n in ns:
+            by_sig[fns[n].get("sig")][1].append(n)
+        for sig, (olds, news) in by_sig.items():
+            if len(olds) < 2 or len(olds) != len(news):
+                continue
+            gone = {x.rsplit("::", 1)[-1] for x in olds}
+            come = {x.rsplit("::", 1)[-1] for x in news}
+
+            def fp_of(names, drop):
+                # calls of the renamed functions among themselves say nothing about which is which
+                return [c for c in names if c.rsplit("::", 1)[-1] not in drop]
+            scores = []
+            for o in olds:
+                fo = fp_of(ref["fns"][o].get("fp") or [], gone)
+                for n in news:
+                    fn_ = fp_of(_closure_fp(fns[n]), come)
+                    a, b = set(fo), set(fn_)
+                    jac = (len(a & b) / len(a | b)) if (a | b) else 0.0
+                    scores.append((jac, o, n))
+            scores.sort(reverse=True)
+            used_o, used_n, pairs = set(), set(), []
+            for (jac, o, n) in scores:
+                if o in used_o or n in used_n or jac < 0.5:
+                    continue
+                # unambiguous: no other free candidate scores the same for this old function
+                if any(j2 == jac and o2 == o and n2 != n and n2 not in used_n for (j2, o2, n2) in scores):
+                    continue
+                used_o.add(o)
+                used_n.add(n)
+                pairs.append((n, o))
+            if len(pairs) == len(olds):
+                for n, o in pairs:
+                    fn_ren[n] = o
     # moved: a method became a free function of the enclosing module (or the reverse) under the same name
     for sc, vs in vanished.items():
         for v in vs:
